@@ -26,6 +26,10 @@ from . import h
 VERIF_ROOT = h.VERIF_ROOT
 EXIT_OK, EXIT_VIOLATION, EXIT_HARNESS = 0, 1, 2
 JOBS = int(os.environ.get('VERIF_JOBS', '16'))
+# CPU budgets in the harness files were sized on an idle machine; on a loaded one (several checks at once) the same
+# exploration costs up to twice the CPU time, so the budgets are doubled: a budget only bounds inconclusive explorations,
+# an exhausted path tree ends the condition at once
+BUDGET_SCALE = float(os.environ.get('VERIF_BUDGET_SCALE', '2'))
 # VERIF_OUT redirects evidence and replay files (used when a scratch copy of the repository is checked, see bin/run-seeded)
 EVIDENCE_DIR = os.environ.get('VERIF_OUT') or os.path.join(VERIF_ROOT, 'evidence')
 
@@ -126,7 +130,7 @@ def run_conditions(conds, tier, seed, jobs=JOBS, verbose=True):
     while queue or running:
         while queue and len(running) < jobs:
             cond = queue.pop(0)
-            budget = cond.tiers[tier]
+            budget = cond.tiers[tier] * BUDGET_SCALE
             rfd, wfd = os.pipe()
             pid = os.fork()
             if pid == 0:
@@ -370,7 +374,7 @@ def check(pid, tier, only=None, seed=0, jobs=JOBS):
         if res.get('native_mismatch'):
             errors.append((cid, 'NATIVE-MISMATCH', res['native_mismatch']))
 
-    write_evidence(pid, tier, seed, conds, results, violations, known_lines, time.time() - t0)
+    write_evidence(pid, tier, seed, conds, results, violations, known_lines, time.time() - t0, partial=bool(only))
 
     confirmed = sum(1 for r in results.values() if r['status'] == 'CONFIRMED')
     unknown = sum(1 for r in results.values() if r['status'] == 'UNKNOWN')
@@ -390,7 +394,7 @@ def check(pid, tier, only=None, seed=0, jobs=JOBS):
     return EXIT_OK
 
 
-def write_evidence(pid, tier, seed, conds, results, violations, known_lines, wall):
+def write_evidence(pid, tier, seed, conds, results, violations, known_lines, wall, partial=False):
     by_id = {c.id: c for c in conds}
     confirmed = [r for r in results.values() if r['status'] == 'CONFIRMED']
     unknown = [r for r in results.values() if r['status'] == 'UNKNOWN']
@@ -408,7 +412,7 @@ def write_evidence(pid, tier, seed, conds, results, violations, known_lines, wal
             'id': cid, 'status': r['status'], 'paths': r.get('paths', 0), 'ok_paths': r.get('ok_paths', 0),
             'assumption_rejected_paths': r.get('ignored_paths', 0),
             'z3_queries': r.get('z3_queries', 0), 'z3_s': r.get('z3_s', 0), 'cpu_s': r.get('cpu_s', 0),
-            'budget_s': c.tiers[tier], 'bounds': c.bounds, 'symbolic': c.symbolic, 'enumerated': c.enumerated,
+            'budget_s': c.tiers[tier] * BUDGET_SCALE, 'bounds': c.bounds, 'symbolic': c.symbolic, 'enumerated': c.enumerated,
             'tags': r.get('tags', {}), 'reason': r.get('reason', ''),
         })
     total_paths = sum(r.get('paths', 0) for r in results.values())
@@ -445,8 +449,10 @@ def write_evidence(pid, tier, seed, conds, results, violations, known_lines, wal
             'conditions listed as inconclusive are NOT discharged',
         }),
     }
-    os.makedirs(EVIDENCE_DIR, exist_ok=True)
-    with open(os.path.join(EVIDENCE_DIR, f'{pid}.json'), 'w') as f:
+    # a run restricted with --only describes part of the property only: it never replaces evidence/<id>.json
+    outdir = os.path.join(VERIF_ROOT, '.work', 'evidence-partial') if partial and not os.environ.get('VERIF_OUT') else EVIDENCE_DIR
+    os.makedirs(outdir, exist_ok=True)
+    with open(os.path.join(outdir, f'{pid}.json'), 'w') as f:
         json.dump(doc, f, indent=1, default=repr)
 
 
